@@ -20,6 +20,16 @@ MODULES = [
 ]
 
 STANDINS = [
+    {"name": "front_en_abs", "module": "standins.front_en", "args": ["--part", "abs"],
+     "props": ["C01"], "timeout": {"quick": 900, "thorough": 3600}},
+    {"name": "front_en_relative", "module": "standins.front_en", "args": ["--part", "relative"],
+     "props": ["C04"], "timeout": {"quick": 900, "thorough": 3600}},
+    {"name": "front_en_order", "module": "standins.front_en", "args": ["--part", "order"],
+     "props": ["C07"], "timeout": {"quick": 900, "thorough": 3600}},
+    {"name": "vocab_names", "module": "standins.vocab_names", "props": ["C05"],
+     "timeout": {"quick": 900, "thorough": 3600}},
+    {"name": "vocab_relative", "module": "standins.vocab_relative", "props": ["C06"],
+     "timeout": {"quick": 900, "thorough": 3600}},
     {"name": "tz_spellings", "module": "standins.tz_spellings", "props": ["C11"],
      "timeout": {"quick": 900, "thorough": 3600}},
     {"name": "sanitize_relational", "module": "standins.sanitize_relational", "props": ["C18"],
@@ -52,6 +62,8 @@ LEVELS = {
     "C18": "other",
     "C17": "other",
     "C13": "other",
+    "C05": "other",
+    "C06": "other",
 }
 
 _COMMON = [
